@@ -740,6 +740,70 @@ func c16Exec(c c16Case, r *hx.Rec, concFirst bool) error {
 	return nil
 }
 
+// c16Unrelated: commands run by different goroutines have nothing to do with each other - a command that
+// takes long must not keep somebody else's short command from returning. The long commands here wait for
+// a file that is written once ALL short commands have returned: if a short command's call only comes back
+// when an unrelated long one ends, nobody ever gets there (the long ones give up after 40 s with status 98).
+type c16Unrelated struct {
+	Longs  int `json:"longs"`
+	Shorts int `json:"shorts"`
+	Reps   int `json:"reps"`
+}
+
+func c16UnrelatedRun(c c16Unrelated, r *hx.Rec) error {
+	dir, err := os.MkdirTemp("", "c16u-")
+	if err != nil {
+		return nil
+	}
+	defer os.RemoveAll(dir)
+	flag := filepath.Join(dir, "all-short-commands-returned")
+	emit := filepath.Join(hx.BinDir(), "emit")
+	status := func(bp map[string]interface{}) string { return fmt.Sprint(bp["return-value"]) }
+	longRes := make([]string, c.Longs)
+	var longs, shorts sync.WaitGroup
+	var mu sync.Mutex
+	var shortErr string
+	for i := 0; i < c.Longs; i++ {
+		longs.Add(1)
+		go func(i int) {
+			defer longs.Done()
+			bp, err := intoto.RunCommand([]string{emit, "wf:" + flag + ":40000", "x:0"}, "")
+			if err != nil {
+				longRes[i] = "error: " + err.Error()
+				return
+			}
+			longRes[i] = status(bp)
+		}(i)
+	}
+	for j := 0; j < c.Shorts; j++ {
+		shorts.Add(1)
+		go func(j int) {
+			defer shorts.Done()
+			for k := 0; k < c.Reps; k++ {
+				bp, err := intoto.RunCommand([]string{emit, "o:100", "e:10", fmt.Sprintf("x:%d", k%2)}, "")
+				if err != nil || status(bp) != fmt.Sprint(k%2) {
+					mu.Lock()
+					shortErr = fmt.Sprintf("short command %d/%d: error %v, by-products %v", j, k, err, bp)
+					mu.Unlock()
+				}
+			}
+		}(j)
+	}
+	shorts.Wait()
+	_ = os.WriteFile(flag, []byte("go"), 0o644)
+	longs.Wait()
+	r.Nontrivial()
+	if shortErr != "" {
+		return fmt.Errorf("%s", shortErr)
+	}
+	for i, s := range longRes {
+		if s != "0" {
+			return fmt.Errorf("long command %d ended with %s: the file it waited for is written once all %d x %d short commands of the other goroutines have returned - they had not, 40 s after it started (a short command's call did not come back while unrelated commands were running)", i, s, c.Shorts, c.Reps)
+		}
+	}
+	return nil
+}
+
 func TestC16(t *testing.T) {
 	begin(t, "C16")
 	hx.Assume("schedules are sampled (GOMAXPROCS 1/2/4/16, optional yields, several rounds), not enumerated; the check binary is built with -race and race reports are read from the GORACE log file")
@@ -749,5 +813,17 @@ func TestC16(t *testing.T) {
 		Rule:  "2-12 (thorough 32) goroutines, each with a private directory tree (with or without file/directory symlinks incl. a file symlink reachable on two ways), private metadata, keys and verification world, and 1-4 operations from RecordArtifacts / InTotoRun / InTotoRecordStart+Stop / InTotoMatchProducts / SubstituteParameters / Sign / VerifySignature / Dump+LoadMetadata / LoadKey / InTotoVerifyWithDirectory, often all on the same API family; sequential execution gives the expected results, the concurrent execution (start barrier, optional yields, GOMAXPROCS 1/2/4/16, several rounds) must give equal results and no race-detector report; non-trivial = two goroutines overlapping in time inside the same API family (measured); distinct by case JSON",
 		Cases: hx.Pick(40, 1500),
 		Gen:   c16Gen, Run: c16Run,
+	}.Execute(t)
+	if t.Failed() {
+		return
+	}
+	hx.Check[c16Unrelated]{
+		Property: "C16", Part: "unrelated-commands",
+		Rule:  "2-8 goroutines running one long command each (it waits for a file, at most 40 s) next to 2-8 goroutines running 10-30 short commands each; the file is written once all short commands have returned: every long command must end with status 0, every short one with its own status; every case is non-trivial and distinct (real processes)",
+		Cases: hx.Pick(2, 30),
+		Gen: func(t *rapid.T) c16Unrelated {
+			return c16Unrelated{Longs: rapid.IntRange(2, 8).Draw(t, "longs"), Shorts: rapid.IntRange(2, 8).Draw(t, "shorts"), Reps: rapid.IntRange(10, 30).Draw(t, "reps")}
+		},
+		Run: c16UnrelatedRun,
 	}.Execute(t)
 }
